@@ -47,7 +47,7 @@ func runEvalContextAgreement(p *Prog, r *Report) {
 				return true
 			}
 			f := calleeOf(info, call)
-			if f == nil || f.Name() != "Value" {
+			if f == nil || fname(f) != "Value" {
 				return true
 			}
 			fs, ok := f.Type().(*types.Signature)
